@@ -89,7 +89,9 @@ class ConsistentLeg(object):
             n = draw(st.integers(1, 8))
             recs = [_exhibiting_record(draw, S, d["style"], d["repeated"], i) for i in range(n)]
             return {"dialect": d, "records": recs, "checklines": draw(st.integers(0, n + 2)),
-                    "file_db": draw(st.booleans())}
+                    "file_db": draw(st.booleans()),
+                    "bare_at": draw(st.one_of(st.none(), st.integers(0, n))), "bare_form": draw(st.sampled_from(["8 columns", "empty ninth column"])),
+                    "handed_on": draw(st.sampled_from(["reversed", "rotated", "odd-first"]))}
 
         return case()
 
@@ -135,6 +137,26 @@ class ConsistentLeg(object):
             bad = _cmp_dialect(DataIterator(gz, checklines=cl).dialect, want_o, "DataIterator(<gzip copy with CRLF line ends>).dialect")
             if bad:
                 return bad
+        if case.get("bare_at") is not None:
+            # a line without attributes inside (or after) the window has no say: the other lines decide every entry, and the
+            # order is that of the keys seen on the window's other lines
+            bare = "chrB\tsrc\tregion\t1\t2\t.\t+\t." + ("\t" if case["bare_form"] == "empty ninth column" else "")
+            lines2 = [tm.render_line(r, d) for r in recs]
+            lines2.insert(case["bare_at"], bare)
+            recs2 = list(recs)
+            recs2.insert(case["bare_at"], None)
+            order2 = []
+            for r in recs2[: cl + 1]:
+                for k, _ in (r["attrs"] if r is not None else []):
+                    if k not in order2:
+                        order2.append(k)
+            if order2:  # a window holding nothing but the bare line exhibits no dialect
+                path2 = ctx.write("in_bare.txt", "\n".join(lines2) + "\n")
+                bad = _cmp_dialect(DataIterator(path2, checklines=cl).dialect, dict(want, order=order2),
+                                   "DataIterator(<file with an attribute-less line (%s) at position %d>, checklines=%d).dialect"
+                                   % (case["bare_form"], case["bare_at"], cl))
+                if bad:
+                    return bad
         dbfn = ctx.path("o.db") if case["file_db"] else ":memory:"
         db = gffutils.create_db(path, dbfn, checklines=cl, keep_order=True)
         bad = _cmp_dialect(db.dialect, want_o, "create_db(checklines=%d).dialect" % cl)
@@ -181,6 +203,21 @@ class ConsistentLeg(object):
             kids = sorted(f.id for f in db.children("f0", level=1))
             if kids != sorted("f%d" % i for i in range(1, n)):
                 return Failure("GFF input: children of f0 %r" % kids, sig={"kind": "routing"})
+        # features fetched from the database and handed on in another order: the first-seen key order is that of the sequence
+        # handed over, not the one the database was written with
+        if case.get("handed_on") and n >= 2:
+            idx = list(range(n))
+            idx = {"reversed": idx[::-1], "rotated": idx[1:] + idx[:1], "odd-first": idx[1::2] + idx[0::2]}[case["handed_on"]]
+            seq = [feats[i] for i in idx]
+            order3 = []
+            for i in idx[: cl + 1]:
+                for k, _ in recs[i]["attrs"]:
+                    if k not in order3:
+                        order3.append(k)
+            got3 = DataIterator(seq, checklines=cl).dialect
+            if list(got3.get("order") or []) != order3:
+                return Failure("DataIterator(<features of the database, %s>, checklines=%d).dialect['order'] = %r, expected the first-seen key order %r"
+                               % (case["handed_on"], cl, got3.get("order"), order3), sig={"kind": "dialect-entry", "entry": "order-handed-on"})
         # force_gff only selects the importer: the reported dialect is still the file's, and lines print as written
         if d["style"] == "gtf" and n % 2 == 0:
             dbf = gffutils.create_db(path, ":memory:", checklines=cl, keep_order=True, force_gff=True)
